@@ -97,6 +97,7 @@ class Harness:
       self.seed += 1
     self.cohort_of = tab
     self.log = None
+    self.notes = []
     self.trigger = None      # leg R: predicate(kind, fields) naming the spec crash point to realise
     self.cur_round = 0
 
@@ -129,14 +130,22 @@ class Harness:
     import jax.numpy as jnp  # pylint: disable=g-import-not-at-top
 
     def init():
-      return {'hist': np.zeros((0,), np.int32), 'params': jnp.zeros((2,), jnp.float32)}
+      # besides the history: leaves as real server states have them - float32 parameters, low-precision leaves and a
+      # weakly typed scalar (a Python-float step size turned into a jax array), whose typing decides the dtype of products
+      return {'hist': np.zeros((0,), np.int32), 'params': jnp.zeros((2,), jnp.float32), 'step': jnp.asarray(0.5),
+              'half': jnp.ones((2,), jnp.float16), 'bf': jnp.ones((3,), jnp.bfloat16), 'count': np.int64(2**40)}
+
+    def tail_step(state, c):
+      return {'params': state['params'] + jnp.float32(c), 'step': state['step'] * 0.5,
+              'half': state['half'] * state['step'] + c, 'bf': state['bf'] * state['step'], 'count': state['count'] + np.int64(c)}
+
+    h.tail_step, h.tail_init = tail_step, init
 
     def apply(state, clients):
       c = h.cohort_of.get(tuple(cid for cid, _, _ in clients), -1)
       h.maybe_crash('Apply', r=len(state['hist']) + 1)
       h.cur_round = len(state['hist']) + 1
-      new = {'hist': np.concatenate([np.asarray(state['hist']), np.array([c], np.int32)]),
-             'params': state['params'] + jnp.float32(c)}
+      new = dict(tail_step(state, c), hist=np.concatenate([np.asarray(state['hist']), np.array([c], np.int32)]))
       h.log.append({'e': 'Apply', 'st': [int(x) for x in new['hist']]})
       return new, {cid: {} for cid, _, _ in clients}
 
@@ -234,7 +243,21 @@ class Harness:
       try:
         out = self.fe.run_federated_experiment(alg, alg.init(), self.make_sampler(), cfg,
                                                periodic_eval_fn_map=per, final_eval_fn_map=fin)
-        self.log.append({'e': 'Return', 'st': [int(x) for x in out['hist']]})
+        st = [int(x) for x in out['hist']]
+        # the rest of the returned state must be what the same rounds give without any interruption (dtype, weak typing, value)
+        ref = self.tail_init()
+        for c_ in st:
+          ref = self.tail_step(ref, c_)
+        for kf in ('params', 'step', 'half', 'bf', 'count'):
+          a_, b_ = out[kf], ref[kf]
+          same = (np.asarray(a_).dtype == np.asarray(b_).dtype and np.array_equal(np.asarray(a_, np.float64), np.asarray(b_, np.float64))
+                  and getattr(a_, 'weak_type', None) == getattr(b_, 'weak_type', None) and type(a_).__name__ == type(b_).__name__)
+          if not same:
+            self.notes.append(f'returned state leaf {kf}: {type(a_).__name__} {np.asarray(a_).dtype} weak={getattr(a_, "weak_type", None)} {np.asarray(a_).tolist()} '
+                              f'but the uninterrupted run gives {type(b_).__name__} {np.asarray(b_).dtype} weak={getattr(b_, "weak_type", None)} {np.asarray(b_).tolist()}')
+            st = [-7]     # not the state of any history: the specification rejects the Return
+            break
+        self.log.append({'e': 'Return', 'st': st})
       except faults.SimCrash:
         self.log.append({'e': 'Crash'})
         outcome = 'crash'
@@ -487,7 +510,7 @@ def leg_r(ctx):
         tsv = snap.get(json.dumps({'k': 'tsv', 'r': 0, 's': ''}, sort_keys=True))
         vis = sorted(json.loads(n)['r'] for n in snap if json.loads(n)['k'] == 'ckpt')
         if outcome != 'return' or not ret or ret[0]['st'] != list(s['result']):
-          problem = ('final-result', f'final incarnation: outcome {outcome}, returned {ret[0]["st"] if ret else None}, the specification expects {s["result"]}')
+          problem = ('final-result', f'final incarnation: outcome {outcome}, returned {ret[0]["st"] if ret else None}, the specification expects {s["result"]}' + (f'; {h.notes[-1]}' if h.notes else ''))
         elif vis != sorted(s['visible']):
           problem = ('final-directory', f'checkpoints at the end {vis}, the specification expects {sorted(s["visible"])}')
         elif tsv is None or tsv['status'] != 'complete' or tsv['content'] != list(s['tsv']['content']) or tsv['round'] != s['tsv']['round']:
